@@ -1,4 +1,5 @@
 import AioslskVerif.Model.Track
+import AioslskVerif.Proofs.TrackLog
 /-! Helper lemmas for C15: the per-user invariant and its preservation by every step. -/
 namespace AioslskVerif.Track
 open AioslskVerif.Generated.Track
@@ -38,26 +39,42 @@ theorem specFrames_append (rs : List Req) (r : Req) :
 structure UInv (now : Nat) (U : User) : Prop where
   lost : U.processed ++ U.queue = U.issued
   flags : U.flagsOf = specFlags U.processed
-  frames : U.frames = specFrames U.processed
+  frames : collapse U.frames = specFrames U.processed
+  wire : U.frames.getLast? = some .addUser ↔ U.flagsOf ≠ Flags.empty
   finLt : ∀ g ∈ U.finished, g < U.nextGen
   genLt : ∀ e, U.entry = some e → e.gen < U.nextGen ∧ e.gen ∉ U.finished
-  pcAdd : ∀ e, U.entry = some e → (e.pc = .sendAdd ∨ ∃ d, e.pc = .waitResp d) → e.flags ≠ Flags.empty
-  pcRem : ∀ e, U.entry = some e → e.pc = .sendRemove → e.flags = Flags.empty ∧ e.retry = none
+  pcAdd : ∀ e, U.entry = some e → (e.pc = .sendAdd ∨ ∃ d, e.pc = .waitResp d) →
+    e.flags ≠ Flags.empty ∧ ∃ t, U.log.getLast? = some (.add t)
+  pcRem : ∀ e, U.entry = some e → e.pc = .sendRemove →
+    e.flags = Flags.empty ∧ e.retry = none ∧ e.live = none ∧ U.log.getLast? = some .remove
   retry : ∀ e t, U.entry = some e → e.retry = some t →
-    e.flags ≠ Flags.empty ∧ t.armedAt ≤ now ∧ (t.delay = retryNetError ∨ t.delay = retryNonExisting)
+    e.flags ≠ Flags.empty ∧ t.armedAt ≤ now ∧ (t.delay = retryNetError ∨ t.delay = retryNonExisting) ∧
+    e.pc = .idle ∧ e.live = none ∧ U.log.getLast? = some (.fail t.due)
+  live : ∀ e k, U.entry = some e → e.live = some k →
+    e.flags ≠ Flags.empty ∧ e.pc = .idle ∧ e.retry = none ∧ ∃ due, U.log.getLast? = some (.fail due) ∧ due ≤ now
   idle : ∀ e, U.entry = some e → e.pc = .idle →
     ((e.flags = Flags.empty ↔ e.state = .untracked) ∧
-     (e.flags ≠ Flags.empty → (e.state = .tracked ↔ U.outcomes.getLast? = some .exists)))
+     (e.flags ≠ Flags.empty → (e.state = .tracked ↔ U.outcomes.getLast? = some .exists)) ∧
+     (e.flags = Flags.empty → (U.log.getLast? = none ∨ U.log.getLast? = some .remove)) ∧
+     (e.flags ≠ Flags.empty →
+        ((e.state = .tracked ∧ U.log.getLast? = some .ok) ∨
+         (e.state = .retryPending ∧ ∃ due, U.log.getLast? = some (.fail due)))))
+  noEnt : U.entry = none → (U.log.getLast? = none ∨ U.log.getLast? = some .remove)
   count : U.fired + U.pending ≤ U.failed
+  logJ : Justified U.log = true
+  logF : framesOf U.log = U.frames
 
 theorem UInv.init (now : Nat) : UInv now User.init := by
   constructor <;> simp [User.init, User.queue, User.flagsOf, User.pending]
 
 theorem UInv.mono {now now' : Nat} {U : User} (h : UInv now U) (hle : now ≤ now') : UInv now' U := by
-  refine { h with retry := ?_ }
-  intro e t he ht
-  have := h.retry e t he ht
-  exact ⟨this.1, by omega, this.2.2⟩
+  refine { h with retry := ?_, live := ?_ }
+  · intro e t he ht
+    have := h.retry e t he ht
+    exact ⟨this.1, by omega, this.2.2⟩
+  · intro e k he hk
+    obtain ⟨h1, h2, h3, due, h4, h5⟩ := h.live e k he hk
+    exact ⟨h1, h2, h3, due, h4, by omega⟩
 
 /-! ### every per-user step preserves the invariant -/
 
@@ -65,27 +82,31 @@ syntax "uinv_auto" : tactic
 macro_rules
   | `(tactic| uinv_auto) => `(tactic|
       (constructor <;>
-        (try simp_all [User.queue, User.flagsOf, User.pending, specFlags_append, specFrames_append, edge]) <;>
+        (try simp_all [User.queue, User.flagsOf, User.pending, Req.call, specFlags_append, specFrames_append, edge,
+           justified_append, framesOf_append, framesOf, Ev.okAfter, collapse_append_remove, Timer.due]) <;>
         (try grind)))
 
+set_option maxHeartbeats 4000000 in
 theorem UInv.track {now : Nat} {U : User} (h : UInv now U) (f : Flags) : UInv now (U.track f) := by
-  have ⟨h1, h2, h3, h4, h5, h6, h7, h8, h9, h10⟩ := h
+  have ⟨h1, h2, h3, h4, h5, h6, h7, h8, h9, h10, h11, h12, h13, h14, h15⟩ := h
   unfold User.track
   cases he : U.entry <;> uinv_auto
 
+set_option maxHeartbeats 4000000 in
 theorem UInv.untrack {now : Nat} {U : User} (h : UInv now U) (f : Flags) : UInv now (U.untrack f) := by
-  have ⟨h1, h2, h3, h4, h5, h6, h7, h8, h9, h10⟩ := h
+  have ⟨h1, h2, h3, h4, h5, h6, h7, h8, h9, h10, h11, h12, h13, h14, h15⟩ := h
   unfold User.untrack
   cases he : U.entry with
   | some e => uinv_auto
   | none =>
     have hf : specFlags U.processed = Flags.empty := by simpa [User.flagsOf, he] using h2.symm
-    have ha : ({ add := false, flag := f } : Req).apply Flags.empty = Flags.empty := by simp [Req.apply]
+    have ha : (Req.call false f).apply Flags.empty = Flags.empty := by simp [Req.apply, Req.call]
     constructor <;>
       (try simp_all [User.queue, User.flagsOf, User.pending, specFlags_append, specFrames_append, edge])
 
-theorem UInv.retryFires {now : Nat} {U : User} (h : UInv now U) (t : Nat) : UInv now (U.retryFires t) := by
-  have ⟨h1, h2, h3, h4, h5, h6, h7, h8, h9, h10⟩ := h
+set_option maxHeartbeats 4000000 in
+theorem UInv.retryFires {now : Nat} {U : User} (h : UInv now U) : UInv now (U.retryFires now) := by
+  have ⟨h1, h2, h3, h4, h5, h6, h7, h8, h9, h10, h11, h12, h13, h14, h15⟩ := h
   unfold User.retryFires
   split
   · exact h
@@ -95,10 +116,9 @@ theorem UInv.retryFires {now : Nat} {U : User} (h : UInv now U) (t : Nat) : UInv
       · uinv_auto
       · exact h
 
-/-- the done-callback of a finished worker never removes a live entry: the entry it belonged to was
-removed when the worker returned, and newer entries have newer identities -/
+set_option maxHeartbeats 4000000 in
 theorem UInv.reap {now : Nat} {U : User} (h : UInv now U) (g : Nat) : UInv now (U.reap g) := by
-  have ⟨h1, h2, h3, h4, h5, h6, h7, h8, h9, h10⟩ := h
+  have ⟨h1, h2, h3, h4, h5, h6, h7, h8, h9, h10, h11, h12, h13, h14, h15⟩ := h
   unfold User.reap
   split
   · cases he : U.entry with
@@ -109,61 +129,107 @@ theorem UInv.reap {now : Nat} {U : User} (h : UInv now U) (g : Nat) : UInv now (
       uinv_auto
   · exact h
 
+set_option maxHeartbeats 4000000 in
 theorem UInv.close {now : Nat} {U : User} (h : UInv now U) : UInv now U.close := by
-  have ⟨h1, h2, h3, h4, h5, h6, h7, h8, h9, h10⟩ := h
+  have ⟨h1, h2, h3, h4, h5, h6, h7, h8, h9, h10, h11, h12, h13, h14, h15⟩ := h
   unfold User.close
   cases he : U.entry <;> uinv_auto
 
+set_option maxHeartbeats 4000000 in
 theorem UInv.take {now : Nat} {U : User} {e : Entry} {r : Req} {q : List Req} (h : UInv now U)
-    (he : U.entry = some e) (hpc : e.pc = .idle) (hq : e.queue = r :: q) : UInv now (U.take e r q) := by
-  have ⟨h1, h2, h3, h4, h5, h6, h7, h8, h9, h10⟩ := h
+    (he : U.entry = some e) (hpc : e.pc = .idle) (hq : e.queue = r :: q) : UInv now (U.take now e r q) := by
+  have ⟨h1, h2, h3, h4, h5, h6, h7, h8, h9, h10, h11, h12, h13, h14, h15⟩ := h
   have hl : U.processed ++ [r] ++ q = U.issued := by
     rw [← h1]; simp [User.queue, he, hq]
   have hf : specFlags U.processed = e.flags := by simpa [User.flagsOf, he] using h2.symm
   have hfl : specFlags (U.processed ++ [r]) = r.apply e.flags := by rw [specFlags_append, hf]
-  have hfr : specFrames (U.processed ++ [r]) = U.frames ++ edge e.flags r := by
+  have hfr : specFrames (U.processed ++ [r]) = collapse U.frames ++ edge e.flags r := by
     rw [specFrames_append, hf, h3]
+  have hw : U.frames.getLast? = some .addUser ↔ e.flags ≠ Flags.empty := by simpa [User.flagsOf, he] using h4
+  have hi := h11 e he hpc
+  have hlive : ∀ k, e.live = some k →
+      e.flags ≠ Flags.empty ∧ e.retry = none ∧ ∃ due, U.log.getLast? = some (.fail due) ∧ due ≤ now := by
+    intro k hk
+    obtain ⟨a, _, b, c⟩ := h10 e k he hk
+    exact ⟨a, b, c⟩
+  have hhon : e.honours r = true → ∃ k, e.live = some k := by
+    unfold Entry.honours
+    cases r.rid with
+    | none => simp
+    | some k => intro hh; exact ⟨k, by simpa using hh⟩
   unfold User.take User.loopOrExit User.exit
   simp only []
-  split
-  · split
-    · uinv_auto
-    · split
+  by_cases hA : r.apply e.flags = Flags.empty
+  · simp only [hA, if_true]
+    by_cases hB : e.flags = Flags.empty
+    · simp only [hB, ne_eq, not_true_eq_false, if_false]
+      split
       · uinv_auto
       · uinv_auto
-  · split
-    · uinv_auto
-    · uinv_auto
+    · simp only [ne_eq, hB, not_false_eq_true, if_true]
+      have hlast : U.log.getLast? = some .ok ∨ ∃ due, U.log.getLast? = some (.fail due) := by
+        rcases hi.2.2.2 hB with ⟨_, h⟩ | ⟨_, h⟩
+        · exact Or.inl h
+        · exact Or.inr h
+      uinv_auto
+  · simp only [hA, if_false]
+    by_cases hB : e.flags = Flags.empty
+    · have hlv : e.live = none := by
+        cases hk : e.live with
+        | none => rfl
+        | some k => exact ((hlive k hk).1 hB).elim
+      have hnh : e.honours r = false := by
+        cases hh : e.honours r with
+        | false => rfl
+        | true => obtain ⟨k, hk⟩ := hhon hh; rw [hlv] at hk; cases hk
+      have hlast : U.frames.getLast? ≠ some .addUser := fun hx => (hw.mp hx) hB
+      have hc := collapse_append_add_of_not_last U.frames hlast
+      simp only [hB, true_or, if_true, hnh, Bool.false_eq_true, if_false]
+      uinv_auto
+    · by_cases hH : e.honours r = true
+      · obtain ⟨k, hk⟩ := hhon hH
+        obtain ⟨_, hrt, due, hdue, hle⟩ := hlive k hk
+        have hlast : U.frames.getLast? = some .addUser := hw.mpr hB
+        have hc := collapse_append_add_of_last U.frames hlast
+        simp only [hB, hH, or_true, if_true]
+        uinv_auto
+      · have hnh : e.honours r = false := by simpa using hH
+        simp only [hB, hnh, Bool.false_eq_true, or_false, if_false]
+        uinv_auto
 
+set_option maxHeartbeats 4000000 in
 theorem UInv.failAttempt {now : Nat} {U : User} {e : Entry} (h : UInv now U) (he : U.entry = some e)
     (hpc : e.pc = .sendAdd ∨ ∃ d, e.pc = .waitResp d) (o : Outcome) (ho : o ≠ .exists) (delay : Nat)
     (hd : delay = retryNetError ∨ delay = retryNonExisting) : UInv now (U.failAttempt e now o delay) := by
-  have ⟨h1, h2, h3, h4, h5, h6, h7, h8, h9, h10⟩ := h
-  have hne := h6 e he hpc
+  have ⟨h1, h2, h3, h4, h5, h6, h7, h8, h9, h10, h11, h12, h13, h14, h15⟩ := h
+  obtain ⟨hne, t, hlast⟩ := h7 e he hpc
   unfold User.failAttempt
   uinv_auto
 
+set_option maxHeartbeats 4000000 in
 theorem UInv.succeed {now : Nat} {U : User} {e : Entry} (h : UInv now U) (he : U.entry = some e)
     (hpc : ∃ d, e.pc = .waitResp d) : UInv now (U.succeed e) := by
-  have ⟨h1, h2, h3, h4, h5, h6, h7, h8, h9, h10⟩ := h
-  have hne := h6 e he (Or.inr hpc)
+  have ⟨h1, h2, h3, h4, h5, h6, h7, h8, h9, h10, h11, h12, h13, h14, h15⟩ := h
+  obtain ⟨hne, t, hlast⟩ := h7 e he (Or.inr hpc)
   unfold User.succeed
   uinv_auto
 
+set_option maxHeartbeats 4000000 in
 theorem UInv.afterRemove {now : Nat} {U : User} {e : Entry} (h : UInv now U) (he : U.entry = some e)
     (hpc : e.pc = .sendRemove) : UInv now (U.afterRemove e) := by
-  have ⟨h1, h2, h3, h4, h5, h6, h7, h8, h9, h10⟩ := h
-  have hne := h7 e he hpc
+  have ⟨h1, h2, h3, h4, h5, h6, h7, h8, h9, h10, h11, h12, h13, h14, h15⟩ := h
+  have hne := h8 e he hpc
   unfold User.afterRemove User.loopOrExit User.exit
   simp only []
   split
   · uinv_auto
   · uinv_auto
 
+set_option maxHeartbeats 4000000 in
 theorem UInv.sendOk {now : Nat} {U : User} {e : Entry} (h : UInv now U) (he : U.entry = some e)
     (hpc : e.pc = .sendAdd) (d : Nat) : UInv now { U with entry := some { e with pc := .waitResp d } } := by
-  have ⟨h1, h2, h3, h4, h5, h6, h7, h8, h9, h10⟩ := h
-  have hne := h6 e he (Or.inl hpc)
+  have ⟨h1, h2, h3, h4, h5, h6, h7, h8, h9, h10, h11, h12, h13, h14, h15⟩ := h
+  have hne := h7 e he (Or.inl hpc)
   uinv_auto
 
 /-- every failure branch of `_request_tracking` returns one of the two module constants (regenerated) -/
@@ -212,7 +278,7 @@ theorem Inv.step {s : State} (h : Inv s) (op : Op) : Inv (step s op) := by
   | untrack u f => exact h.upd u ((h u).untrack f)
   | workerStep u env => exact h.upd u ((h u).worker env)
   | reap u g => exact h.upd u ((h u).reap g)
-  | retryFires u => exact h.upd u ((h u).retryFires _)
+  | retryFires u => exact h.upd u (h u).retryFires
   | serverClosed => intro v; exact (h v).close
   | advance dt => intro v; exact (h v).mono (Nat.le_add_right _ _)
 
@@ -233,8 +299,8 @@ theorem loopOrExit_ghost (U : User) (e : Entry) :
   unfold User.loopOrExit User.exit
   split <;> exact ⟨rfl, rfl⟩
 
-theorem take_ghost (U : User) (e : Entry) (r : Req) (q : List Req) :
-    (U.take e r q).issued = U.issued ∧ (U.take e r q).fired = U.fired := by
+theorem take_ghost (U : User) (now : Nat) (e : Entry) (r : Req) (q : List Req) :
+    (U.take now e r q).issued = U.issued ∧ (U.take now e r q).fired = U.fired := by
   unfold User.take
   simp only []
   split
@@ -251,7 +317,7 @@ theorem worker_ghost (U : User) (now : Nat) (env : Env) :
   · split
     · split
       · exact ⟨rfl, rfl⟩
-      · exact take_ghost _ _ _ _
+      · exact take_ghost _ _ _ _ _
     · exact ⟨rfl, rfl⟩
     · exact ⟨rfl, rfl⟩
     · exact ⟨rfl, rfl⟩
@@ -264,15 +330,15 @@ theorem worker_ghost (U : User) (now : Nat) (env : Env) :
 
 def RInv (U : User) : Prop := (U.issued.filter Req.isRetry).length = U.fired
 
-theorem RInv.track {U : User} (h : RInv U) {f : Flags} (hf : f ≠ Flags.empty) : RInv (U.track f) := by
+theorem RInv.track {U : User} (h : RInv U) (f : Flags) : RInv (U.track f) := by
   unfold RInv at *
   unfold User.track
-  cases he : U.entry <;> simp [List.filter_append, Req.isRetry, hf, h]
+  cases he : U.entry <;> simp [List.filter_append, Req.isRetry, Req.call, h]
 
-theorem RInv.untrack {U : User} (h : RInv U) {f : Flags} (hf : f ≠ Flags.empty) : RInv (U.untrack f) := by
+theorem RInv.untrack {U : User} (h : RInv U) (f : Flags) : RInv (U.untrack f) := by
   unfold RInv at *
   unfold User.untrack
-  cases he : U.entry <;> simp [List.filter_append, Req.isRetry, hf, h]
+  cases he : U.entry <;> simp [List.filter_append, Req.isRetry, Req.call, h]
 
 theorem RInv.worker {U : User} (h : RInv U) (now : Nat) (env : Env) : RInv (U.worker now env) := by
   unfold RInv at *
@@ -282,7 +348,7 @@ theorem RInv.retryFires {U : User} (h : RInv U) (now : Nat) : RInv (U.retryFires
   unfold RInv at *
   unfold User.retryFires
   repeat' split
-  all_goals first | exact h | simp [List.filter_append, Req.isRetry, retryReq, h]
+  all_goals first | exact h | simp [List.filter_append, List.filter, Req.isRetry, retryReq, h]
 
 theorem RInv.reap {U : User} (h : RInv U) (g : Nat) : RInv (U.reap g) := by
   unfold RInv at *
@@ -292,19 +358,17 @@ theorem RInv.reap {U : User} (h : RInv U) (g : Nat) : RInv (U.reap g) := by
 
 theorem RInv.close (U : User) : RInv U.close := by simp [RInv, User.close]
 
-theorem rinv_step {s : State} (h : ∀ u, RInv (s.users u)) (op : Op) (hop : op.flagOk = true) :
+theorem rinv_step {s : State} (h : ∀ u, RInv (s.users u)) (op : Op) :
     ∀ u, RInv ((step s op).users u) := by
   intro v
   cases op with
   | track u f =>
-    have hf : f ≠ Flags.empty := by simpa [Op.flagOk] using hop
     by_cases hv : v = u
-    · simpa [step, State.upd, hv] using (h u).track hf
+    · simpa [step, State.upd, hv] using (h u).track f
     · simpa [step, State.upd, hv] using h v
   | untrack u f =>
-    have hf : f ≠ Flags.empty := by simpa [Op.flagOk] using hop
     by_cases hv : v = u
-    · simpa [step, State.upd, hv] using (h u).untrack hf
+    · simpa [step, State.upd, hv] using (h u).untrack f
     · simpa [step, State.upd, hv] using h v
   | workerStep u env =>
     by_cases hv : v = u
@@ -321,22 +385,20 @@ theorem rinv_step {s : State} (h : ∀ u, RInv (s.users u)) (op : Op) (hop : op.
   | serverClosed => exact RInv.close _
   | advance dt => exact h v
 
-theorem rinv_run {s : State} (h : ∀ u, RInv (s.users u)) (ops : List Op) (hops : ∀ op ∈ ops, op.flagOk = true) :
+theorem rinv_run {s : State} (h : ∀ u, RInv (s.users u)) (ops : List Op) :
     ∀ u, RInv ((run s ops).users u) := by
   induction ops generalizing s with
   | nil => exact h
-  | cons op ops ih =>
-    exact ih (rinv_step h op (hops op (by simp))) (fun o ho => hops o (by simp [ho]))
+  | cons op ops ih => exact ih (rinv_step h op)
 
-theorem rinv_reach (ops : List Op) (hops : ∀ op ∈ ops, op.flagOk = true) (u : Nat) :
-    RInv ((run State.init ops).users u) :=
-  rinv_run (fun _ => by simp [RInv, State.init, User.init]) ops hops u
+theorem rinv_reach (ops : List Op) (u : Nat) : RInv ((run State.init ops).users u) :=
+  rinv_run (fun _ => by simp [RInv, State.init, User.init]) ops u
 
 /-! ### after a close nothing happens until somebody calls -/
 
 /-- no entry, empty history -/
 def Dropped (U : User) : Prop :=
-  U.entry = none ∧ U.issued = [] ∧ U.processed = [] ∧ U.frames = [] ∧ U.events = [] ∧ U.outcomes = []
+  U.entry = none ∧ U.issued = [] ∧ U.processed = [] ∧ U.frames = [] ∧ U.events = [] ∧ U.outcomes = [] ∧ U.log = []
 
 theorem Dropped.close (U : User) : Dropped U.close := by simp [Dropped, User.close]
 
@@ -348,10 +410,10 @@ theorem Dropped.retryFires {U : User} (h : Dropped U) (now : Nat) : U.retryFires
 
 theorem Dropped.reap {U : User} (h : Dropped U) (g : Nat) : Dropped (U.reap g) := by
   unfold User.reap
-  obtain ⟨h1, h2, h3, h4, h5, h6⟩ := h
+  obtain ⟨h1, h2, h3, h4, h5, h6, h7⟩ := h
   split
-  · simp [Dropped, h1, h2, h3, h4, h5, h6]
-  · exact ⟨h1, h2, h3, h4, h5, h6⟩
+  · simp [Dropped, h1, h2, h3, h4, h5, h6, h7]
+  · exact ⟨h1, h2, h3, h4, h5, h6, h7⟩
 
 theorem dropped_step {s : State} (h : ∀ u, Dropped (s.users u)) (op : Op) (hop : op.isCall = false) :
     ∀ u, Dropped ((step s op).users u) := by
@@ -395,8 +457,8 @@ theorem reap_entry_of_inv {now : Nat} {U : User} (h : UInv now U) (g : Nat) : (U
   · rfl
 
 theorem edges_of_inv {now : Nat} {U : User} (h : UInv now U) :
-    U.frames = specFrames U.processed ∧ U.flagsOf = specFlags U.processed ∧
-    (U.queue = [] → U.frames = specFrames U.issued ∧ U.flagsOf = specFlags U.issued) := by
+    collapse U.frames = specFrames U.processed ∧ U.flagsOf = specFlags U.processed ∧
+    (U.queue = [] → collapse U.frames = specFrames U.issued ∧ U.flagsOf = specFlags U.issued) := by
   refine ⟨h.frames, h.flags, fun hq => ?_⟩
   have h1 : U.processed = U.issued := by
     have := h.lost
@@ -424,9 +486,9 @@ theorem state_of_inv {now : Nat} {U : User} (h : UInv now U) (hq : U.Quiescent) 
           intro hf
           have := hi.1.mp hf
           simp [ht] at this
-        exact ⟨hne, (hi.2 hne).mp ht⟩
+        exact ⟨hne, (hi.2.1 hne).mp ht⟩
       · intro ⟨hne, hl⟩
-        exact (hi.2 hne).mpr hl
+        exact (hi.2.1 hne).mpr hl
     · simp only [User.stateOf, User.flagsOf, he]
       exact hi.1.symm
 
@@ -440,11 +502,13 @@ theorem retry_of_inv {now : Nat} {U : User} (h : UInv now U) :
         e.flags ≠ Flags.empty ∧ t.armedAt ≤ now ∧ (t.delay = 10 ∨ t.delay = 600)) ∧
     U.fired + U.pending ≤ U.failed ∧
     (∀ e, U.entry = some e → (e.pc = .sendAdd ∨ ∃ d, e.pc = .waitResp d) → e.flags ≠ Flags.empty) ∧
-    (∀ e, U.entry = some e → e.pc = .sendRemove → e.flags = Flags.empty ∧ e.retry = none) := by
-  refine ⟨fun e t he ht => ?_, h.count, h.pcAdd, h.pcRem⟩
-  have := h.retry e t he ht
-  rw [documented_delays.2.2.2.2.2.1, documented_delays.2.2.2.2.2.2] at this
-  exact this
+    (∀ e, U.entry = some e → e.pc = .sendRemove → e.flags = Flags.empty ∧ e.retry = none ∧ e.live = none) := by
+  refine ⟨fun e t he ht => ?_, h.count, fun e he hpc => (h.pcAdd e he hpc).1, fun e he hpc => ?_⟩
+  · have := h.retry e t he ht
+    rw [documented_delays.2.2.2.2.2.1, documented_delays.2.2.2.2.2.2] at this
+    exact ⟨this.1, this.2.1, this.2.2.1⟩
+  · have := h.pcRem e he hpc
+    exact ⟨this.1, this.2.1, this.2.2.1⟩
 
 theorem retry_delay (U : User) (now : Nat) (env : Env) (e e' : Entry) (t : Timer)
     (he : U.entry = some e) (he' : (U.worker now env).entry = some e') (ht : e'.retry = some t)
@@ -475,21 +539,12 @@ theorem edge_cases (f : Flags) (r : Req) :
     (f ≠ Flags.empty → r.apply f = Flags.empty → edge f r = [.removeUser]) ∧
     (f = Flags.empty → r.apply f ≠ Flags.empty → edge f r = [.addUser]) ∧
     (f = Flags.empty → r.apply f = Flags.empty → edge f r = []) ∧
-    (f ≠ Flags.empty → r.apply f ≠ Flags.empty → r.isRetry = false → edge f r = []) ∧
-    (f ≠ Flags.empty → r.isRetry = true → edge f r = [.addUser]) := by
-  refine ⟨?_, ?_, ?_, ?_, ?_⟩
+    (f ≠ Flags.empty → r.apply f ≠ Flags.empty → edge f r = []) := by
+  refine ⟨?_, ?_, ?_, ?_⟩
   · intro h1 h2; simp [edge, h1, h2]
   · intro h1 h2; subst h1; simp [edge, h2]
   · intro h1 h2; subst h1; simp [edge, h2]
-  · intro h1 h2 h3; simp [edge, h1, h2, h3]
-  · intro h1 h3
-    have hf : r.flag = Flags.empty := by simpa [Req.isRetry] using h3
-    have : r.apply f = f := by
-      unfold Req.apply
-      rw [hf]
-      cases f
-      simp [Flags.add, Flags.remove, Flags.empty]
-    simp [edge, this, h1, h3]
+  · intro h1 h2; simp [edge, h1, h2]
 
 theorem dropped_after_close (ops after : List Op) (hafter : ∀ op ∈ after, op.isCall = false) (u : Nat) :
     Dropped ((run State.init (ops ++ [.serverClosed] ++ after)).users u) := by
@@ -516,8 +571,7 @@ theorem edge_last (pre : List Frame) (f : Flags) (r : Req)
     split
     · simp [h0]
     · next hf =>
-      have hf' : f ≠ Flags.empty := fun hfe => hf (Or.inl hfe)
-      simp [h0]; exact h.mpr hf'
+      simp [h0]; exact h.mpr hf
 
 theorem specFramesFrom_last (rs : List Req) : ∀ (f : Flags) (pre : List Frame),
     (pre.getLast? = some .addUser ↔ f ≠ Flags.empty) →
@@ -535,563 +589,6 @@ theorem specFrames_last (rs : List Req) :
   simpa [specFrames, specFlags] using this
 
 theorem wire_of_inv {now : Nat} {U : User} (h : UInv now U) :
-    U.frames.getLast? = some .addUser ↔ U.flagsOf ≠ Flags.empty := by
-  rw [h.frames, h.flags]; exact specFrames_last _
-
-/-! ### `reasons`: how each step changes the fold of the requests made -/
-
-theorem mem_dedup {u : Nat} {l : List Nat} : u ∈ dedup l ↔ u ∈ l := by
-  induction l with
-  | nil => simp [dedup]
-  | cons a l ih =>
-    unfold dedup
-    split
-    · next ha =>
-      constructor
-      · intro h; exact List.mem_cons_of_mem _ (ih.mp h)
-      · intro h
-        cases List.mem_cons.mp h with
-        | inl h => exact ih.mpr (h ▸ ha)
-        | inr h => exact ih.mpr h
-    · simp [ih]
-
-theorem issued_track (U : User) (f : Flags) : (U.track f).issued = U.issued ++ [⟨true, f⟩] := by
-  unfold User.track; cases U.entry <;> rfl
-
-theorem issued_untrack (U : User) (f : Flags) : (U.untrack f).issued = U.issued ++ [⟨false, f⟩] := by
-  unfold User.untrack; cases U.entry <;> rfl
-
-theorem issued_reap (U : User) (g : Nat) : (U.reap g).issued = U.issued := by
-  unfold User.reap
-  repeat' split
-  all_goals rfl
-
-theorem specFlags_issued_retryFires (U : User) (now : Nat) :
-    specFlags (U.retryFires now).issued = specFlags U.issued := by
-  unfold User.retryFires
-  repeat' split
-  all_goals first | rfl | simp [specFlags_append, retryReq, Req.apply]
-
-theorem reasons_track (s : State) (v : Nat) (f : Flags) (u : Nat) :
-    reasons (step s (.track v f)) u = if u = v then (reasons s u).add f else reasons s u := by
-  unfold reasons
-  by_cases h : u = v
-  · subst h; simp [step, State.upd, issued_track, specFlags_append, Req.apply]
-  · simp [step, State.upd, h]
-
-theorem reasons_untrack (s : State) (v : Nat) (f : Flags) (u : Nat) :
-    reasons (step s (.untrack v f)) u = if u = v then (reasons s u).remove f else reasons s u := by
-  unfold reasons
-  by_cases h : u = v
-  · subst h; simp [step, State.upd, issued_untrack, specFlags_append, Req.apply]
-  · simp [step, State.upd, h]
-
-theorem reasons_closed (s : State) (u : Nat) : reasons (step s .serverClosed) u = Flags.empty := by
-  simp [reasons, step, User.close]
-
-theorem reasons_workerStep (s : State) (v : Nat) (env : Env) (u : Nat) :
-    reasons (step s (.workerStep v env)) u = reasons s u := by
-  unfold reasons
-  by_cases h : u = v
-  · subst h; simp [step, State.upd, (worker_ghost _ _ _).1]
-  · simp [step, State.upd, h]
-
-theorem reasons_reap (s : State) (v g : Nat) (u : Nat) : reasons (step s (.reap v g)) u = reasons s u := by
-  unfold reasons
-  by_cases h : u = v
-  · subst h; simp [step, State.upd, issued_reap]
-  · simp [step, State.upd, h]
-
-theorem reasons_retryFires (s : State) (v : Nat) (u : Nat) : reasons (step s (.retryFires v)) u = reasons s u := by
-  unfold reasons
-  by_cases h : u = v
-  · subst h; simp [step, State.upd, specFlags_issued_retryFires]
-  · simp [step, State.upd, h]
-
-theorem reasons_advance (s : State) (dt : Nat) (u : Nat) : reasons (step s (.advance dt)) u = reasons s u := rfl
-
-theorem Flags.add_idem (a f : Flags) : (a.add f).add f = a.add f := by
-  cases a; cases f; simp [Flags.add]
-
-theorem Flags.remove_idem (a f : Flags) : (a.remove f).remove f = a.remove f := by
-  cases a; cases f; simp [Flags.remove]
-
-theorem run_cons (s : State) (op : Op) (ops : List Op) : run s (op :: ops) = run (step s op) ops := rfl
-
-/-- the same reason requested for a list of users: every user in the list gets it, nobody else is touched -/
-theorem reasons_run_tracks (us : List Nat) (f : Flags) (u : Nat) : ∀ s : State,
-    reasons (run s (us.map (Op.track · f))) u = if u ∈ us then (reasons s u).add f else reasons s u := by
-  induction us with
-  | nil => intro s; simp [run]
-  | cons v us ih =>
-    intro s
-    rw [List.map_cons, run_cons, ih, reasons_track]
-    by_cases h1 : u = v <;> by_cases h2 : u ∈ us <;> simp [h1, h2, Flags.add_idem]
-
-theorem reasons_run_untracks (us : List Nat) (f : Flags) (u : Nat) : ∀ s : State,
-    reasons (run s (us.map (Op.untrack · f))) u = if u ∈ us then (reasons s u).remove f else reasons s u := by
-  induction us with
-  | nil => intro s; simp [run]
-  | cons v us ih =>
-    intro s
-    rw [List.map_cons, run_cons, ih, reasons_untrack]
-    by_cases h1 : u = v <;> by_cases h2 : u ∈ us <;> simp [h1, h2, Flags.remove_idem]
-
-/-! ### the owners: what a login / a management cycle leaves behind -/
-
-namespace World
-
-theorem mem_unfinishedUsers (w : World) (u : Nat) : u ∈ w.unfinishedUsers ↔ w.HasUnfinished u := by
-  unfold unfinishedUsers HasUnfinished
-  rw [mem_dedup]
-  simp only [List.mem_map, List.mem_filter]
-  constructor
-  · rintro ⟨x, ⟨hx, hf⟩, rfl⟩; exact ⟨x, hx, rfl, by simpa using hf⟩
-  · rintro ⟨x, hx, rfl, hf⟩; exact ⟨x, ⟨hx, by simp [hf]⟩, rfl⟩
-
-theorem mem_finishedOnlyUsers (w : World) (u : Nat) :
-    u ∈ w.finishedOnlyUsers ↔ w.HasFinished u ∧ ¬ w.HasUnfinished u := by
-  unfold finishedOnlyUsers HasFinished
-  rw [List.mem_filter, mem_dedup]
-  simp only [List.mem_map, List.mem_filter, decide_eq_true_eq]
-  constructor
-  · rintro ⟨⟨x, ⟨hx, hf⟩, rfl⟩, hn⟩; exact ⟨⟨x, hx, rfl, hf⟩, hn⟩
-  · rintro ⟨⟨x, hx, rfl, hf⟩, hn⟩; exact ⟨⟨x, ⟨hx, hf⟩, rfl⟩, hn⟩
-
-/-- one management cycle, per user -/
-theorem reasons_cycle (w : World) (u : Nat) :
-    reasons (run w.t w.cycleOps) u =
-      if w.HasUnfinished u then (reasons w.t u).add fTr
-      else if w.HasFinished u then (reasons w.t u).remove fTr
-      else reasons w.t u := by
-  unfold cycleOps
-  rw [run_append, reasons_run_untracks, reasons_run_tracks]
-  simp only [mem_unfinishedUsers, mem_finishedOnlyUsers]
-  by_cases h1 : w.HasUnfinished u <;> by_cases h2 : w.HasFinished u <;> simp [h1, h2]
-
-/-- one login, per user other than the own name -/
-theorem reasons_login (w : World) (u : Nat) (hu : u ≠ me) :
-    reasons (run w.t w.loginOps) u = if u ∈ w.friends then (reasons w.t u).add fFr else reasons w.t u := by
-  unfold loginOps
-  rw [run_cons, reasons_run_tracks, reasons_track]
-  simp [hu, mem_dedup]
-
-end World
-
-/-! ### the world invariant: the owners' reasons are what the owners can see -/
-
-@[simp] theorem tr_add_fTr (a : Flags) : (a.add fTr).tr = true := by simp [Flags.add, fTr]
-@[simp] theorem tr_remove_fTr (a : Flags) : (a.remove fTr).tr = false := by simp [Flags.remove, fTr]
-@[simp] theorem tr_add_fFr (a : Flags) : (a.add fFr).tr = a.tr := by simp [Flags.add, fFr]
-@[simp] theorem tr_remove_fFr (a : Flags) : (a.remove fFr).tr = a.tr := by simp [Flags.remove, fFr]
-@[simp] theorem tr_add_fReq (a : Flags) : (a.add fReq).tr = a.tr := by simp [Flags.add, fReq]
-@[simp] theorem tr_remove_fReq (a : Flags) : (a.remove fReq).tr = a.tr := by simp [Flags.remove, fReq]
-@[simp] theorem fr_add_fFr (a : Flags) : (a.add fFr).fr = true := by simp [Flags.add, fFr]
-@[simp] theorem fr_remove_fFr (a : Flags) : (a.remove fFr).fr = false := by simp [Flags.remove, fFr]
-@[simp] theorem fr_add_fTr (a : Flags) : (a.add fTr).fr = a.fr := by simp [Flags.add, fTr]
-@[simp] theorem fr_remove_fTr (a : Flags) : (a.remove fTr).fr = a.fr := by simp [Flags.remove, fTr]
-@[simp] theorem fr_add_fReq (a : Flags) : (a.add fReq).fr = a.fr := by simp [Flags.add, fReq]
-@[simp] theorem fr_remove_fReq (a : Flags) : (a.remove fReq).fr = a.fr := by simp [Flags.remove, fReq]
-@[simp] theorem req_add_fTr (a : Flags) : (a.add fTr).req = a.req := by simp [Flags.add, fTr]
-@[simp] theorem req_remove_fTr (a : Flags) : (a.remove fTr).req = a.req := by simp [Flags.remove, fTr]
-@[simp] theorem req_add_fFr (a : Flags) : (a.add fFr).req = a.req := by simp [Flags.add, fFr]
-@[simp] theorem req_remove_fFr (a : Flags) : (a.remove fFr).req = a.req := by simp [Flags.remove, fFr]
-@[simp] theorem empty_tr : Flags.empty.tr = false := rfl
-@[simp] theorem empty_fr : Flags.empty.fr = false := rfl
-@[simp] theorem empty_req : Flags.empty.req = false := rfl
-
-structure WInv (w : World) : Prop where
-  /-- after a cycle (and until the transfers change or the server closes) TRANSFER = "has an unfinished transfer" -/
-  trSync : w.cycleRan = true → ∀ u, (reasons w.t u).tr = decide (w.HasUnfinished u)
-  /-- a user without any transfer never carries TRANSFER -/
-  trNone : ∀ u, ¬ w.HasXfer u → (reasons w.t u).tr = false
-  /-- without a session nobody carries FRIEND -/
-  frOff : w.session = false → ∀ u, u ≠ me → (reasons w.t u).fr = false
-  /-- in a session FRIEND = "is in the friends list" -/
-  frOn : w.session = true → ∀ u, u ≠ me → (reasons w.t u).fr = decide (u ∈ w.friends)
-
-theorem WInv.init : WInv World.init := by
-  constructor <;> simp [World.init, reasons, State.init, User.init]
-
-/-- a step of the layer below made by the application (REQUESTED only) or by the tracking tasks / the clock
-leaves TRANSFER and FRIEND alone -/
-theorem reasons_step_app (s : State) (op : Op) (hop : (WOp.base op).appOk = true) (hc : op ≠ .serverClosed)
-    (u : Nat) : (reasons (step s op) u).tr = (reasons s u).tr ∧ (reasons (step s op) u).fr = (reasons s u).fr := by
-  cases op with
-  | track v f =>
-    have hf : f = fReq := by simpa [WOp.appOk] using hop
-    subst hf; rw [reasons_track]; split <;> simp
-  | untrack v f =>
-    have hf : f = fReq := by simpa [WOp.appOk] using hop
-    subst hf; rw [reasons_untrack]; split <;> simp
-  | workerStep v env => rw [reasons_workerStep]; exact ⟨rfl, rfl⟩
-  | reap v g => rw [reasons_reap]; exact ⟨rfl, rfl⟩
-  | retryFires v => rw [reasons_retryFires]; exact ⟨rfl, rfl⟩
-  | serverClosed => exact (hc rfl).elim
-  | advance dt => exact ⟨rfl, rfl⟩
-
-theorem WInv.close {w : World} (_h : WInv w) : WInv w.close := by
-  constructor <;> simp [World.close, reasons_closed]
-
-theorem hasXfer_of_unfinished {w : World} {u : Nat} (h : w.HasUnfinished u) : w.HasXfer u := by
-  obtain ⟨x, hx, hu, _⟩ := h; exact ⟨x, hx, hu⟩
-
-theorem hasXfer_of_finished {w : World} {u : Nat} (h : w.HasFinished u) : w.HasXfer u := by
-  obtain ⟨x, hx, hu, _⟩ := h; exact ⟨x, hx, hu⟩
-
-theorem WInv.cycle {w : World} (h : WInv w) : WInv (wstep w .cycle) := by
-  have hx : ∀ u, (wstep w .cycle).HasUnfinished u ↔ w.HasUnfinished u := fun _ => Iff.rfl
-  constructor
-  · intro _ u
-    show (reasons (run w.t w.cycleOps) u).tr = decide (w.HasUnfinished u)
-    rw [World.reasons_cycle]
-    by_cases h1 : w.HasUnfinished u
-    · simp [h1]
-    · by_cases h2 : w.HasFinished u
-      · simp [h1, h2]
-      · have : ¬ w.HasXfer u := by
-          rintro ⟨x, hx, hu⟩
-          cases hf : x.finished
-          · exact h1 ⟨x, hx, hu, hf⟩
-          · exact h2 ⟨x, hx, hu, hf⟩
-        simp [h1, h2, h.trNone u this]
-  · intro u hn
-    show (reasons (run w.t w.cycleOps) u).tr = false
-    have hn' : ¬ w.HasXfer u := hn
-    rw [World.reasons_cycle]
-    have h1 : ¬ w.HasUnfinished u := fun h1 => hn' (hasXfer_of_unfinished h1)
-    have h2 : ¬ w.HasFinished u := fun h2 => hn' (hasXfer_of_finished h2)
-    simp [h1, h2, h.trNone u hn']
-  · intro hs u hu
-    show (reasons (run w.t w.cycleOps) u).fr = false
-    rw [World.reasons_cycle]
-    have := h.frOff hs u hu
-    repeat' split
-    all_goals simpa using this
-  · intro hs u hu
-    show (reasons (run w.t w.cycleOps) u).fr = decide (u ∈ w.friends)
-    rw [World.reasons_cycle]
-    have := h.frOn hs u hu
-    repeat' split
-    all_goals simpa using this
-
-theorem WInv.login {w : World} (h : WInv w) : WInv (wstep w .login) := by
-  have key : ∀ u, u ≠ me → (reasons (run w.t w.loginOps) u).tr = (reasons w.t u).tr := by
-    intro u hu; rw [World.reasons_login w u hu]; split <;> simp
-  have keyMe : (reasons (run w.t w.loginOps) me).tr = (reasons w.t me).tr := by
-    unfold World.loginOps
-    rw [run_cons, reasons_run_tracks, reasons_track]
-    split <;> simp
-  have keyAll : ∀ u, (reasons (run w.t w.loginOps) u).tr = (reasons w.t u).tr := by
-    intro u; by_cases hu : u = me
-    · subst hu; exact keyMe
-    · exact key u hu
-  constructor
-  · intro hc u
-    show (reasons (run w.t w.loginOps) u).tr = decide (w.HasUnfinished u)
-    rw [keyAll]; exact h.trSync hc u
-  · intro u hn
-    show (reasons (run w.t w.loginOps) u).tr = false
-    rw [keyAll]; exact h.trNone u hn
-  · intro hs; simp [wstep] at hs
-  · intro _ u hu
-    show (reasons (run w.t w.loginOps) u).fr = decide (u ∈ w.friends)
-    rw [World.reasons_login w u hu]
-    by_cases hf : u ∈ w.friends
-    · simp [hf]
-    · cases hs : w.session
-      · simp [hf, h.frOff hs u hu]
-      · simp [hf, h.frOn hs u hu]
-
-
-theorem wstep_friend_true (w : World) (u : Nat) : wstep w (.friend u true) =
-    if u ∈ w.friends then w
-    else { w with friends := w.friends ++ [u], t := if w.session then step w.t (.track u fFr) else w.t } := rfl
-
-theorem wstep_friend_false (w : World) (u : Nat) : wstep w (.friend u false) =
-    if u ∈ w.friends then
-      { w with friends := w.friends.filter (· ≠ u), t := if w.session then step w.t (.untrack u fFr) else w.t }
-    else w := rfl
-
-theorem wstep_trm (w : World) (id : Nat) : wstep w (.trm id) =
-    match w.xfers.find? (fun x => x.id = id) with
-    | none => w
-    | some x =>
-      let rest := w.xfers.erase x
-      { w with xfers := rest, cycleRan := false,
-               t := if ∃ y ∈ rest, y.user = x.user then w.t else step w.t (.untrack x.user fTr) } := rfl
-
-theorem WInv.base {w : World} (h : WInv w) (op : Op) (hop : (WOp.base op).appOk = true) :
-    WInv (wstep w (.base op)) := by
-  by_cases hc : op = .serverClosed
-  · subst hc; exact h.close
-  · have hw : wstep w (.base op) = { w with t := step w.t op } := by
-      cases op <;> first | rfl | exact (hc rfl).elim
-    rw [hw]
-    have key := reasons_step_app w.t op hop hc
-    constructor
-    · intro hcr u; show (reasons (step w.t op) u).tr = _; rw [(key u).1]; exact h.trSync hcr u
-    · intro u hn; show (reasons (step w.t op) u).tr = _; rw [(key u).1]; exact h.trNone u hn
-    · intro hs u hu; show (reasons (step w.t op) u).fr = _; rw [(key u).2]; exact h.frOff hs u hu
-    · intro hs u hu; show (reasons (step w.t op) u).fr = _; rw [(key u).2]; exact h.frOn hs u hu
-
-theorem WInv.friend {w : World} (h : WInv w) (u : Nat) (b : Bool) : WInv (wstep w (.friend u b)) := by
-  cases b with
-  | true =>
-    rw [wstep_friend_true]
-    split
-    · exact h
-    · next hnot =>
-      constructor
-      · intro hcr v
-        show (reasons (if w.session = true then step w.t (.track u fFr) else w.t) v).tr = decide (w.HasUnfinished v)
-        split
-        · rw [reasons_track]; split <;> simpa using h.trSync hcr v
-        · exact h.trSync hcr v
-      · intro v hn
-        show (reasons (if w.session = true then step w.t (.track u fFr) else w.t) v).tr = false
-        split
-        · rw [reasons_track]; split <;> simpa using h.trNone v hn
-        · exact h.trNone v hn
-      · intro hs v hv
-        have hs' : w.session = false := hs
-        show (reasons (if w.session = true then step w.t (.track u fFr) else w.t) v).fr = false
-        simp [hs', h.frOff hs' v hv]
-      · intro hs v hv
-        have hs' : w.session = true := hs
-        show (reasons (if w.session = true then step w.t (.track u fFr) else w.t) v).fr = decide (v ∈ w.friends ++ [u])
-        simp only [hs', if_true]
-        rw [reasons_track]
-        by_cases hvu : v = u
-        · simp [hvu]
-        · simp [hvu, h.frOn hs' v hv]
-  | false =>
-    rw [wstep_friend_false]
-    split
-    · next hin =>
-      constructor
-      · intro hcr v
-        show (reasons (if w.session = true then step w.t (.untrack u fFr) else w.t) v).tr = decide (w.HasUnfinished v)
-        split
-        · rw [reasons_untrack]; split <;> simpa using h.trSync hcr v
-        · exact h.trSync hcr v
-      · intro v hn
-        show (reasons (if w.session = true then step w.t (.untrack u fFr) else w.t) v).tr = false
-        split
-        · rw [reasons_untrack]; split <;> simpa using h.trNone v hn
-        · exact h.trNone v hn
-      · intro hs v hv
-        have hs' : w.session = false := hs
-        show (reasons (if w.session = true then step w.t (.untrack u fFr) else w.t) v).fr = false
-        simp [hs', h.frOff hs' v hv]
-      · intro hs v hv
-        have hs' : w.session = true := hs
-        show (reasons (if w.session = true then step w.t (.untrack u fFr) else w.t) v).fr
-          = decide (v ∈ w.friends.filter (· ≠ u))
-        simp only [hs', if_true]
-        rw [reasons_untrack]
-        by_cases hvu : v = u
-        · simp [hvu]
-        · simp [hvu, h.frOn hs' v hv]
-    · exact h
-
-theorem WInv.tadd {w : World} (h : WInv w) (u : Nat) : WInv (wstep w (.tadd u)) := by
-  constructor
-  · intro hcr; simp [wstep] at hcr
-  · intro v hn
-    apply h.trNone v
-    rintro ⟨x, hx, hu⟩
-    exact hn ⟨x, by simp [wstep, hx], hu⟩
-  · exact h.frOff
-  · exact h.frOn
-
-theorem WInv.setFinished {w : World} (h : WInv w) (id : Nat) (b : Bool) : WInv (w.setFinished id b) := by
-  constructor
-  · intro hcr; simp [World.setFinished] at hcr
-  · intro v hn
-    apply h.trNone v
-    rintro ⟨x, hx, hu⟩
-    apply hn
-    refine ⟨if x.id = id then { x with finished := b } else x, ?_, ?_⟩
-    · simp only [World.setFinished, List.mem_map]; exact ⟨x, hx, rfl⟩
-    · split <;> exact hu
-  · exact h.frOff
-  · exact h.frOn
-
-theorem WInv.trm {w : World} (h : WInv w) (id : Nat) : WInv (wstep w (.trm id)) := by
-  rw [wstep_trm]
-  split
-  · exact h
-  · next x hfind =>
-    have hxin : x ∈ w.xfers := List.mem_of_find?_eq_some hfind
-    have trEq : ∀ v, v ≠ x.user →
-        reasons (if ∃ y ∈ w.xfers.erase x, y.user = x.user then w.t else step w.t (.untrack x.user fTr)) v
-          = reasons w.t v := by
-      intro v hv
-      split
-      · rfl
-      · rw [reasons_untrack]; simp [hv]
-    have frEq : ∀ v,
-        (reasons (if ∃ y ∈ w.xfers.erase x, y.user = x.user then w.t else step w.t (.untrack x.user fTr)) v).fr
-          = (reasons w.t v).fr := by
-      intro v
-      split
-      · rfl
-      · rw [reasons_untrack]; split <;> simp
-    constructor
-    · intro hcr; simp at hcr
-    · intro v hn
-      have hn' : ¬ ∃ y ∈ w.xfers.erase x, y.user = v := hn
-      show (reasons (if ∃ y ∈ w.xfers.erase x, y.user = x.user then w.t
-        else step w.t (.untrack x.user fTr)) v).tr = false
-      by_cases hv : v = x.user
-      · subst hv
-        simp only [hn', if_false]
-        rw [reasons_untrack]; simp
-      · rw [trEq v hv]
-        apply h.trNone v
-        rintro ⟨y, hy, hyu⟩
-        have hne : y ≠ x := fun hyx => hv (hyx ▸ hyu.symm)
-        exact hn' ⟨y, (List.mem_erase_of_ne hne).mpr hy, hyu⟩
-    · intro hs v hv
-      have hs' : w.session = false := hs
-      show (reasons _ v).fr = false
-      rw [frEq]; exact h.frOff hs' v hv
-    · intro hs v hv
-      have hs' : w.session = true := hs
-      show (reasons _ v).fr = decide (v ∈ w.friends)
-      rw [frEq]; exact h.frOn hs' v hv
-
-theorem WInv.step {w : World} (h : WInv w) (op : WOp) (hop : op.appOk = true) : WInv (wstep w op) := by
-  cases op with
-  | base op => exact h.base op hop
-  | login => exact h.login
-  | cycle => exact h.cycle
-  | friend u b => exact h.friend u b
-  | tadd u => exact h.tadd u
-  | tfin id => exact h.setFinished id true
-  | tque id => exact h.setFinished id false
-  | trm id => exact h.trm id
-
-theorem WInv.run {w : World} (h : WInv w) (ops : List WOp) (hops : ∀ op ∈ ops, op.appOk = true) :
-    WInv (wrun w ops) := by
-  induction ops generalizing w with
-  | nil => exact h
-  | cons op ops ih =>
-    exact ih (h.step op (hops op (by simp))) (fun o ho => hops o (by simp [ho]))
-
-theorem winv_reach (ops : List WOp) (hops : ∀ op ∈ ops, op.appOk = true) : WInv (wrun World.init ops) :=
-  WInv.init.run ops hops
-
-theorem wrun_append (w : World) (a b : List WOp) : wrun w (a ++ b) = wrun (wrun w a) b := by
-  simp [wrun, List.foldl_append]
-
-/-! ### every history of the world is a history of the tracking manager -/
-
-theorem wstep_base (w : World) (op : WOp) : ∃ ops, (wstep w op).t = run w.t ops := by
-  cases op with
-  | base op => exact ⟨[op], by cases op <;> rfl⟩
-  | login => exact ⟨w.loginOps, rfl⟩
-  | cycle => exact ⟨w.cycleOps, rfl⟩
-  | friend u b =>
-    cases b with
-    | false =>
-      rw [wstep_friend_false]
-      split
-      · cases hs : w.session
-        · exact ⟨[], by simp [run]⟩
-        · exact ⟨[.untrack u fFr], by simp [run]⟩
-      · exact ⟨[], rfl⟩
-    | true =>
-      rw [wstep_friend_true]
-      split
-      · exact ⟨[], rfl⟩
-      · cases hs : w.session
-        · exact ⟨[], by simp [run]⟩
-        · exact ⟨[.track u fFr], by simp [run]⟩
-  | tadd u => exact ⟨[], rfl⟩
-  | tfin id => exact ⟨[], rfl⟩
-  | tque id => exact ⟨[], rfl⟩
-  | trm id =>
-    rw [wstep_trm]
-    split
-    · exact ⟨[], rfl⟩
-    · next x _ =>
-      by_cases hc : ∃ y ∈ w.xfers.erase x, y.user = x.user
-      · exact ⟨[], by simp [hc, run]⟩
-      · exact ⟨[.untrack x.user fTr], by simp [hc, run]⟩
-
-theorem wrun_base (wops : List WOp) : ∀ (w : World) (ops0 : List Op), w.t = run State.init ops0 →
-    ∃ ops, (wrun w wops).t = run State.init ops := by
-  induction wops with
-  | nil => intro w ops0 h; exact ⟨ops0, h⟩
-  | cons op wops ih =>
-    intro w ops0 h
-    obtain ⟨ops1, h1⟩ := wstep_base w op
-    exact ih (wstep w op) (ops0 ++ ops1) (by rw [h1, h, run_append])
-
-theorem wrun_is_run (wops : List WOp) : ∃ ops, (wrun World.init wops).t = run State.init ops :=
-  wrun_base wops World.init [] rfl
-
-
-/-! ### the owners never touch REQUESTED -/
-
-theorem req_run_tracks_fTr (us : List Nat) (s : State) (u : Nat) :
-    (reasons (run s (us.map (Op.track · fTr))) u).req = (reasons s u).req := by
-  rw [reasons_run_tracks]; split <;> simp
-
-theorem req_run_untracks_fTr (us : List Nat) (s : State) (u : Nat) :
-    (reasons (run s (us.map (Op.untrack · fTr))) u).req = (reasons s u).req := by
-  rw [reasons_run_untracks]; split <;> simp
-
-theorem req_owner_step (w : World) (op : WOp) (hop : ∀ b, op ≠ .base b) (u : Nat) :
-    (reasons (wstep w op).t u).req = (reasons w.t u).req := by
-  cases op with
-  | base b => exact (hop b rfl).elim
-  | login =>
-    show (reasons (run w.t w.loginOps) u).req = _
-    unfold World.loginOps
-    rw [run_cons, reasons_run_tracks, reasons_track]
-    repeat' split
-    all_goals simp
-  | cycle =>
-    show (reasons (run w.t w.cycleOps) u).req = _
-    unfold World.cycleOps
-    rw [run_append, req_run_untracks_fTr, req_run_tracks_fTr]
-  | friend v b =>
-    cases b with
-    | true =>
-      rw [wstep_friend_true]
-      split
-      · rfl
-      · show (reasons (if w.session = true then step w.t (.track v fFr) else w.t) u).req = _
-        split
-        · rw [reasons_track]; split <;> simp
-        · rfl
-    | false =>
-      rw [wstep_friend_false]
-      split
-      · show (reasons (if w.session = true then step w.t (.untrack v fFr) else w.t) u).req = _
-        split
-        · rw [reasons_untrack]; split <;> simp
-        · rfl
-      · rfl
-  | tadd v => rfl
-  | tfin id => rfl
-  | tque id => rfl
-  | trm id =>
-    rw [wstep_trm]
-    split
-    · rfl
-    · next x _ =>
-      show (reasons (if ∃ y ∈ w.xfers.erase x, y.user = x.user then w.t
-        else step w.t (.untrack x.user fTr)) u).req = _
-      split
-      · rfl
-      · rw [reasons_untrack]; split <;> simp
-
-theorem Flags.ne_empty_iff (f : Flags) : f ≠ Flags.empty ↔ (f.req = true ∨ f.tr = true ∨ f.fr = true) := by
-  cases f with
-  | mk a b c => cases a <;> cases b <;> cases c <;> simp [Flags.empty]
+    U.frames.getLast? = some .addUser ↔ U.flagsOf ≠ Flags.empty := h.wire
 
 end AioslskVerif.Track
